@@ -809,13 +809,16 @@ void varintBitmapAddRange(varintBitmap *vb, uint16_t min, uint16_t max) {
 
     uint32_t rangeSize = max - min;
 
-    /* For large ranges, use runs container */
-    if (rangeSize > VARINT_BITMAP_ARRAY_MAX) {
-        /* Convert to runs if beneficial */
+    /* For large ranges added to an EMPTY set, use a single-run container.
+     * (A non-empty set keeps its members: fall through and add one by one.) */
+    if (rangeSize > VARINT_BITMAP_ARRAY_MAX && vb->cardinality == 0) {
+        /* Release the current (empty) container */
         if (vb->type == VARINT_BITMAP_ARRAY) {
             free(vb->container.array.values);
         } else if (vb->type == VARINT_BITMAP_BITMAP) {
             free(vb->container.bitmap.bits);
+        } else if (vb->type == VARINT_BITMAP_RUNS) {
+            free(vb->container.runs.runs);
         }
 
         vb->type = VARINT_BITMAP_RUNS;
